@@ -1143,7 +1143,25 @@ def fit_and_personalize(env, chk, case, cj, D, vr):
         out = {}
         try:
             with core.quiet():
-                m = fresh_model(env, case, D)   # initialisation always from the clean dataset
+                m = fresh_model(env, case, D)   # the fits below all start from the clean dataset's initialisation
+                if name != "clean":
+                    # ... and a model initialised on the modified dataset itself (first `fit` of a fresh model) starts from
+                    # the very same parameters: data-derived initial values read observed entries and real visits only
+                    try:
+                        mi = env.model_factory(case["model"], **model_kw(case))
+                        mi.initialize(Dv)
+                        pa, pb = dict(m.parameters), dict(mi.parameters)
+                        badp = [k for k in pa if k not in pb or pa[k].shape != pb[k].shape
+                                or not bool(torch.equal(torch.nan_to_num(pa[k].double(), nan=-7.25), torch.nan_to_num(pb[k].double(), nan=-7.25)))]
+                        if badp:
+                            k0 = badp[0]
+                            chk.impl_failure(dict(cj, variant=f"initialize-{name}", pad=pad),
+                                             f"[initialize on the modified dataset] initial '{k0}' is {pb.get(k0).reshape(-1)[:3].tolist() if k0 in pb else None}, "
+                                             f"on the original dataset {pa[k0].reshape(-1)[:3].tolist()}")
+                        chk.tag("initialize_variant", name)
+                    except Exception as e:  # noqa
+                        chk.impl_failure(dict(cj, variant=f"initialize-{name}", pad=pad),
+                                         f"initialisation raises {err_class(e)} on the modified dataset: {str(e)[:150]}")
                 with noise_monitor(env, chk, dict(cj, variant=f"fit-{name}", pad=pad), Dv):
                     m.fit(Dv, "mcmc_saem", n_iter=case["n_iter"], n_burn_in_iter=case["n_burn"], seed=case["seed"], progress_bar=False)
             for p, v in m.parameters.items():
